@@ -1235,7 +1235,24 @@ func blockReaches(a, b *ssa.BasicBlock) bool {
 	return false
 }
 
-func (fr *Frame) checkGo(x *ssa.Go) {}
+// checkGo: the call-site conditions of the function under verification hold for calls started as
+// goroutines too (the arguments are evaluated at the go statement). The goroutine itself is not executed.
+func (fr *Frame) checkGo(x *ssa.Go) {
+	e := fr.e
+	if e.spec == nil || len(e.spec.CallPre) == 0 {
+		return
+	}
+	cc := x.Common()
+	callee := cc.StaticCallee()
+	if callee == nil {
+		return
+	}
+	var args []Val
+	for _, a := range cc.Args {
+		args = append(args, fr.val(a))
+	}
+	fr.checkCallPre(x, callee, e.L.specFor(callee), args, nil, e.L.funcKey(callee))
+}
 
 var _ = strings.TrimSpace
 
